@@ -29,6 +29,7 @@ DROPPED = ["visibility qualifiers (pub, pub(crate), pub(super))",
            "display-only statements `<v>.iter().for_each(|e| { crate::display_error(e); });`",
            "module-level `const` items of the source file that the extracted code refers to and the unit does not define are extracted with it",
            "where a unit says or_guard_rule: a match arm `A | B if g => { body }` is written as the two arms `A if g => { body }` and `B if g => { body }`",
+           "where a unit says lit_rule: a string literal turned into a String (`\"X\".to_string()`, `String::from(\"X\")`, with colour calls in between) becomes `lit(<hash of X>)`; contracts name the label as @LIT(X)@",
            "where a unit says pub_fields: every field of an extracted struct is made `pub`",
            "where a unit says foreach_rule: a statement `<it>.for_each(|<pat>| { <body> });` is rewritten to `for <pat> in <it> { <body> }` (the definition of Iterator::for_each; Verus takes no closure capturing `&mut` state)",
            "where a unit says closure_contracts: the parameter list of a named closure is replaced by an annotated one (types, named result, requires/ensures) and its body, untouched, is wrapped in braces (Verus does not infer closure postconditions)",
@@ -220,6 +221,24 @@ def or_guard_rule(txt):
         new = f"{m.group(1)} if {m.group(3)} => {body}\n        {m.group(2)} if {m.group(3)} => {body}"
         out = out[:m.start()] + new + out[b1:]
         pos = m.start() + len(new)
+
+
+def _lit_hash(text):
+    import hashlib
+    return "0x" + hashlib.sha1(text.encode()).hexdigest()[:12] + "u64"
+
+
+def lit_rule(txt):
+    """String literals that are turned into a `String` (`"X".to_string()`, `"X".green().to_string()`, `String::from("X")`)
+    become `lit(<hash of X>)`: the text is kept as an identity (two different labels stay different, the same label the
+    same), so that a contract can say which label a value is shown under; contracts name a label as @LIT(X)@."""
+    def rep(m):
+        return "lit(" + _lit_hash(m.group(1)) + ")"
+    txt = re.sub(r'String::from\(\s*"((?:[^"\\\\]|\\\\.)*)"\s*\)', rep, txt)
+    txt = re.sub(r'"((?:[^"\\\\]|\\\\.)*)"(?=\s*\.\s*(?:to_string|to_owned|green|red|yellow|into)\b)', rep, txt)
+    # std's blanket `ToString::to_string` cannot be given a specification: the call is renamed to the stand-ins' `to_text`
+    txt = txt.replace(".to_string()", ".to_text()")
+    return txt
 
 
 def _match_paren(text, i):
@@ -551,6 +570,8 @@ def extract_item(e, vac=False):
         item = item.replace(ins["after"], ins["after"] + "\n" + ins["text"] + "\n")
     if e.get("row_rule"):
         item = row_rule(item)
+    if e.get("lit_rule"):
+        item = lit_rule(item)
     if e.get("msg_rule"):
         item = msg_rule(item, {"shaped": True, "at": "at", "at_bytes": "at_bytes"}.get(e.get("msg_rule"), False))
     if e.get("kind", "fn") == "fn":
@@ -640,6 +661,8 @@ def build_unit(u, outdir, vac=False):
         # constants referenced by the extracted code and not defined by the unit: placed at the crate root of the unit
         k = tpl.index("verus! {") + len("verus! {")
         tpl = tpl[:k] + "\n// ---- constants of the source file referenced by the extracted code\n" + "\n".join("pub " + c if not c.startswith("pub ") else c for c in consts) + "\n" + tpl[k:]
+    # label placeholders of contracts / templates (see lit_rule)
+    tpl = re.sub(r"@LIT\((.*?)\)@", lambda m: _lit_hash(m.group(1)), tpl)
     path = outdir + "/" + u["id"] + ("_vacuity" if vac else "") + ".rs"
     open(path, "w").write(tpl)
     return path
